@@ -162,3 +162,10 @@ Theorem header_lines_tail_independent : forall fuel a b hcap ext ptr kvs,
   parse_loop fuel (a ++ b) hcap ptr kvs = parse_loop fuel a hcap ptr kvs.
 Proof. exact loop_tail. Qed.
 Print Assumptions header_lines_tail_independent.
+
+Theorem parse_fragmentation_independent : forall (m : msg) (head tail1 tail2 : bytes) (ext : Z),
+  head_ok m head ext = true -> zlen tail1 <= ext -> zlen tail2 <= ext ->
+  zlen (head ++ tail1) < m_cap m -> zlen (head ++ tail2) < m_cap m -> m_cap m < 65536 ->
+  parse_obs (parse_whole m (head ++ tail1)) = parse_obs (parse_whole m (head ++ tail2)).
+Proof. exact parse_two_tails_proof. Qed.
+Print Assumptions parse_fragmentation_independent.
